@@ -77,6 +77,14 @@ func c08Cases(tier string) []c08Case {
 		{Kind: "method", Name: "M", In: TStruct(F("ab", T("int")), F("aB", T("int")), F("p", TStruct(F("id", T("string")), F("iD", T("string"))))), Out: TStruct(F("ab", T("int")), F("aB", T("int")), F("q", TStruct(F("id", T("string")), F("iD", T("string")))))},
 		{Kind: "error", Name: "E", Type: TStruct(F("ab", T("string")), F("aB", T("string")))},
 	}}, "fieldnames:case-only")
+	// a record below a map, an optional map, an array of maps, a map of arrays (the wire names of its fields are the description's)
+	rec2 := TStruct(F("count", T("int")), F("label", TMaybe(T("string"))))
+	for i, t2 := range []*RType{TMap(rec2), TMaybe(TMap(rec2)), TArr(TMap(rec2)), TMap(TArr(rec2)), TMap(TMap(rec2))} {
+		add(&RIDL{Name: "a.b", Members: []RMember{
+			{Kind: "method", Name: "M", In: TStruct(F("items", t2)), Out: TStruct(F("items", t2))},
+			{Kind: "error", Name: "E", Type: TStruct(F("items", t2))},
+		}}, fmt.Sprintf("record-below-map:%d", i))
+	}
 	// interface names
 	for _, n := range []string{"A.Bc", "a.b-c", "org.example.more", "xn--a.b"} {
 		add(&RIDL{Name: n, Members: []RMember{t0, {Kind: "method", Name: "M", In: TStruct(F("x", TAlias("T0"))), Out: TStruct(F("y", T("string")))}, {Kind: "error", Name: "E", Type: TStruct(F("r", T("string")))}}}, "name:"+n)
